@@ -1021,8 +1021,19 @@ Definition minit (progs : list (list op)) : machine :=
             the logger, its With / Named children, cores, encoder clones - all sharing one EncoderConfig
             through a copied pointer) - kept for the replay, not read here: configurations of this model
             are values; state reached through a shared pointer is the subject of Hygiene.v (sharedfact,
-            shared_sound) and of the facts regenerated from the source (Gen.PoolFacts.shared_facts)
-     adv    the adversary's choices for the model run
+            shared_sound) and of the facts regenerated from the source (Gen.PoolFacts.shared_facts);
+            an item (3 a b 0 0 0 f 0 0 m label) with f = 2 / 4 / 6 - caller and / or stack capture on a
+            call stack of depth f / 8 = 0 - is an EDGE PRELUDE (harness/c08_burst.go): a logger whose
+            AddCallerSkip lies beyond the stack made m / 2 log calls, each through the
+            `stack.Count() == 0` return of Logger.check (log_call: `[] => stack_free st ;;; ce_write`),
+            followed by one runtime.GC() if m is odd; count and label are kept for the replay.  The model
+            frees the Stack exactly once on that path (as on every other one - the regenerated ownership
+            fact Logger.check/stack says the same about the source), and stacks travel by value: a Stack
+            that sits in the pool twice is not a state of this model.  What it would do to two goroutines
+            inside Logger.check at the same time is what the CONCURRENT BURST probe of the history test
+            observes (several goroutines, each with a logger, sinks and call site of its own, every line
+            compared with the line the same call produces alone)
+     adv   the adversary's choices for the model run
      aprobe the observed probe, abstracted the same way
      act    (name n): what the probe's sinks did on OTHER loggers while they were inside Write
             (harness/c08.go, active sinks; n = 0: nothing).  Kept for the replay; for the model that
